@@ -1,0 +1,81 @@
+//go:build verif
+// +build verif
+
+package rpc
+
+import "time"
+
+// VerifHook, when non-nil, receives one event per linearisation point of the
+// library (build tag verif only). It is set once, before any traffic starts.
+// Events named "*.gate" are emitted outside of any lock and may block.
+var VerifHook func(ev string, obj, sub interface{}, a, b uint64)
+
+func vhook(ev string, obj, sub interface{}, a, b uint64) {
+	if h := VerifHook; h != nil {
+		h(ev, obj, sub, a, b)
+	}
+}
+
+func vbool(v bool) uint64 {
+	if v {
+		return 1
+	}
+	return 0
+}
+
+func vupgrade(u *upgrade) uint64 {
+	if u == nil {
+		return 0
+	}
+	return uint64(u.NoRequest)<<7 | uint64(u.NoResponse)<<6 | uint64(u.Heartbeat)<<5 | uint64(u.Stream)<<3
+}
+
+func vnano(t time.Time) uint64 {
+	if t.IsZero() {
+		return 0
+	}
+	return uint64(t.UnixNano())
+}
+
+// VerifSetTicker sets the housekeeping period of the Transport (before first use).
+func (t *Transport) VerifSetTicker(d time.Duration) {
+	t.ticker = d
+}
+
+// VerifConn returns the *Conn behind a pooled connection handed to a hook.
+func VerifConn(obj interface{}) *Conn {
+	if pc, ok := obj.(*persistConn); ok && pc != nil {
+		return pc.Conn
+	}
+	if c, ok := obj.(*Conn); ok {
+		return c
+	}
+	return nil
+}
+
+func vstr(s string) uint64 {
+	var h uint64 = 14695981039346656037
+	for i := 0; i < len(s); i++ {
+		h ^= uint64(s[i])
+		h *= 1099511628211
+	}
+	return h & 0xffffffffffff
+}
+
+// VerifStr is the address digest carried by hook events.
+func VerifStr(s string) uint64 { return vstr(s) }
+
+func vnumcalls(pc *persistConn) uint64 {
+	if pc == nil || pc.Conn == nil {
+		return 0
+	}
+	return pc.NumCalls()
+}
+
+// VerifTargetAddr returns the address of a Client target handed to a hook.
+func VerifTargetAddr(obj interface{}) string {
+	if t, ok := obj.(*target); ok && t != nil {
+		return t.address
+	}
+	return ""
+}
